@@ -34,6 +34,7 @@ DEVIATIONS = {
     "exchange_late": (INVS, {"InvNoLoss", "InvNoPastDiscard", "InvSameDeliveries"}),
     "link_latency_no_sample": (["InvNoLoss"], {"InvNoLoss"}),
     "cancelled_run_skips_bound": (INVS, {"InvNoPastDiscard"}),
+    "stop_without_primary": (INVS, {"InvSameDeliveries", "InvNoLoss"}),
 }
 DEV_CONFS = {"link_latency_no_sample": "ConfsOv"}
 KNOWN_KEY = {"PROP:discarded_past:window_overshoot": "overshoot_then_cross_event_discarded_as_past",
@@ -51,9 +52,10 @@ def tla_set(xs):
     return "{" + ",".join(f'"{x}"' for x in xs) + "}"
 
 
-def consts(confs, max_ev, max_t, *, max_out=2, max_lat=2, short="fixed", inter=False, dev=(), cancels=True):
+def consts(confs, max_ev, max_t, *, max_out=2, max_lat=2, short="fixed", inter=False, dev=(), cancels=True,
+           daemons=False):
     return {"Confs": f"<- {confs}", "MaxLat": max_lat, "MaxEv": max_ev, "MaxT": max_t, "MaxOut": max_out,
-            "Cancels": "TRUE" if cancels else "FALSE", "ShortWin": f'"{short}"',
+            "Cancels": "TRUE" if cancels else "FALSE", "Daemons": "TRUE" if daemons else "FALSE", "ShortWin": f'"{short}"',
             "Interleave": "TRUE" if inter else "FALSE", "Dev": tla_set(dev)}
 
 
@@ -65,6 +67,8 @@ def mc_plan(tier):
              dict(confs="ConfsQ", max_ev=3, max_t=3)),
             ("free interleaving of partition steps", dict(confs="ConfsOne", max_ev=3, max_t=2, inter=True,
                                                         short="never")),
+            ("daemon events, finite end_time (one-way link / no links)",
+             dict(confs="ConfsD", max_ev=3, max_t=2, max_lat=1, short="never", daemons=True)),
         ]
     return [
         ("2 partitions, one-way and two-way links, 4 events", dict(confs="ConfsA", max_ev=4, max_t=3)),
@@ -75,6 +79,8 @@ def mc_plan(tier):
         ("free interleaving of partition steps", dict(confs="ConfsA", max_ev=3, max_t=3, inter=True)),
         ("finite end_time", dict(confs="ConfsE", max_ev=4, max_t=3, max_lat=1)),
         ("independent partitions", dict(confs="ConfsI", max_ev=4, max_t=3)),
+        ("daemon events, finite end_time (one-way link / no links)",
+         dict(confs="ConfsD", max_ev=3, max_t=3, max_lat=1, short="never", daemons=True)),
     ]
 
 
@@ -97,6 +103,9 @@ def dev_job(dev):
         # chooses every handler result
         return dict(init="InitTimers", next_="NextRun", invs=invs, expect=expect,
                     kw=dict(confs="ConfsOne", max_ev=5, max_t=3, max_lat=1, short="never", dev=[dev]))
+    if dev == "stop_without_primary":
+        return dict(init="Init", next_="Next", invs=invs, expect=expect,
+                    kw=dict(confs="ConfsD", max_ev=2, max_t=1, max_lat=1, short="never", daemons=True, dev=[dev]))
     return dict(init="Init", next_="Next", invs=invs, expect=expect,
                 kw=dict(confs=DEV_CONFS.get(dev, "ConfsOne"), max_ev=3, max_t=2, max_lat=1, short="never",
                         dev=[dev]))
@@ -203,7 +212,44 @@ class TlcPlan:
 # random programs beyond the model's bounds
 
 TOPOLOGIES = ("chain", "cycle", "full", "star", "oneway")
-STYLES = ("sparse", "dense", "burst", "boundary", "idle", "chainy", "timers")
+STYLES = ("sparse", "dense", "burst", "boundary", "idle", "chainy", "timers", "daemons")
+
+
+def add_daemons(rng, evs, cont, end_t, tail_from=None):
+    """Daemon flags (only with a finite end_time).  tail_from: every event due at or after that tick is a
+    daemon event - a burst of primary work followed by daemon messages still in flight / daemon samples."""
+    kids = {}
+    for c, (_t, _g, par) in enumerate(evs, start=1):
+        kids.setdefault(par, []).append(c)
+    ok = [i for i in range(1, len(evs) + 1) if i not in cont and not any(c in cont for c in kids.get(i, ()))]
+    if tail_from is not None:
+        return frozenset(i for i in ok if evs[i - 1][0] >= tail_from)
+    return frozenset(i for i in ok if rng.random() < 0.4)
+
+
+def add_futures(rng, evs, cont, cby, daemon):
+    """Handlers that go through SimFuture: pre-resolved future / free capacity-1 Resource before emitting, or
+    parking until the handler of the only child resolves the future."""
+    kids = {}
+    for c, (_t, _g, par) in enumerate(evs, start=1):
+        kids.setdefault(par, []).append(c)
+    plain = lambda i: i not in cont and not any(c in cont for c in kids.get(i, ()))   # noqa: E731
+    pre, park, used = {}, {}, set()
+    for i in range(1, len(evs) + 1):
+        if not plain(i) or i in daemon or i in used:
+            continue
+        ks = kids.get(i, [])
+        if len(ks) == 1 and rng.random() < 0.5:
+            r = ks[0]
+            if plain(r) and evs[r - 1][1] == evs[i - 1][1] and r not in cby and r not in used and r not in daemon:
+                park[i] = r
+                used |= {i, r}
+                continue
+        if rng.random() < 0.35:
+            pre[i] = rng.choice(["future", "resource"])
+            used.add(i)
+    return pre, park
+
 
 
 def add_timers(rng, evs, cont, prob=0.5):
@@ -315,6 +361,8 @@ def random_prog(rng: random.Random, k: int, independent=False) -> Prog:
     horizon = rng.randint(5, 12) if style == "dense" else rng.randint(6, 30)
     budget = rng.randint(4, 14) if k % 4 else rng.randint(15, 45)
     end_t = INF if rng.random() < 0.8 else rng.randint(2, horizon)
+    if style == "daemons":
+        end_t = rng.randint(max(3, horizon // 2), horizon + 2)
     override = {}
     if links and rng.random() < 0.15:
         l = rng.choice(links)
@@ -376,8 +424,14 @@ def random_prog(rng: random.Random, k: int, independent=False) -> Prog:
                 else:
                     evs.append((t + dt, rng.choice(by_part[p]), i))
     cby = add_timers(rng, evs, cont) if rng.random() < 0.35 else {}
+    daemon = frozenset()
+    if end_t != INF and (style == "daemons" or rng.random() < 0.5):
+        tail = rng.randint(1, max(1, end_t // 2)) if style == "daemons" and rng.random() < 0.7 else None
+        daemon = add_daemons(rng, evs, cont, end_t, tail)
+    pre, park = add_futures(rng, evs, cont, cby, daemon) if links and rng.random() < 0.4 else ({}, {})
     prog = Prog(ep=ep, np=np_, links=links, lat=lat, w=w, end_t=end_t, evs=evs, cont=frozenset(cont),
-                override=override, real_dist=bool(override) and rng.random() < 0.5, cby=cby).canonical()
+                override=override, real_dist=bool(override) and rng.random() < 0.5, cby=cby, daemon=daemon,
+                pre=pre, park=park).canonical()
     prog.check()
     return prog
 
@@ -440,7 +494,8 @@ def prog_json(p: Prog):
                 lat=[[a, b, v] for (a, b), v in sorted(p.lat.items())], w=p.w, end_t=p.end_t,
                 evs=[list(e) for e in p.evs], cont=sorted(p.cont),
                 override=[[a, b, v] for (a, b), v in sorted(p.override.items())], real_dist=p.real_dist,
-                cby=[[c, b] for c, b in sorted(p.cby.items())])
+                cby=[[c, b] for c, b in sorted(p.cby.items())], daemon=sorted(p.daemon),
+                pre=[[i, k] for i, k in sorted(p.pre.items())], park=[[i, r] for i, r in sorted(p.park.items())])
 
 
 def prog_from_json(d) -> Prog:
@@ -448,7 +503,8 @@ def prog_from_json(d) -> Prog:
                 lat={(a, b): v for a, b, v in d["lat"]}, w=d["w"], end_t=d["end_t"],
                 evs=[tuple(e) for e in d["evs"]], cont=frozenset(d.get("cont", ())),
                 override={(a, b): v for a, b, v in d.get("override", ())}, real_dist=d.get("real_dist", False),
-                cby={c: b for c, b in d.get("cby", ())})
+                cby={c: b for c, b in d.get("cby", ())}, daemon=frozenset(d.get("daemon", ())),
+                pre={i: k for i, k in d.get("pre", ())}, park={i: r for i, r in d.get("park", ())})
 
 
 def real_outcome(prog: Prog, par):
@@ -463,8 +519,35 @@ def judged_sets(p: Prog, plog):
     return tuple(tuple(i for i in ids if p.end_t == INF or p.evs[i - 1][0] < p.end_t) for ids in plog)
 
 
+def refine_key(key, m):
+    """Name the failing shape more precisely when the program goes through SimFuture: the deliveries that
+    differ all hang off a handler that was resumed through the active heap (pre-resolved future, free
+    Resource, parked handler) / the run raised in such a program."""
+    pj = m["prog"]
+    fut_parents = {i for i, _k in pj.get("pre", ())} | {r for _i, r in pj.get("park", ())}
+    if not fut_parents or key in KNOWN_KEY.values():
+        return key
+    if key.startswith("run_raised"):
+        return key + ":program_resumes_handlers_through_futures"
+    par_of = {i: e[2] for i, e in enumerate(pj["evs"], start=1)}
+
+    def under_future(i):
+        while i:
+            i = par_of[i]
+            if i in fut_parents:
+                return True
+        return False
+    got = {(e, i, ns) for e, lg in m["parallel_log"].items() for i, ns in lg}
+    want = {(e, i, ns) for e, lg in m["reference_log"].items() for i, ns in lg}
+    diff = {i for _e, i, _ns in got ^ want}
+    if diff and all(under_future(i) for i in diff):
+        return key + ":after_future_resume"
+    return key
+
+
 def trace_consts(code_dev):
-    return {"Confs": "{}", "MaxLat": 1, "MaxEv": 1, "MaxT": 1, "MaxOut": 1, "Cancels": "TRUE", "ShortWin": '"any"',
+    return {"Confs": "{}", "MaxLat": 1, "MaxEv": 1, "MaxT": 1, "MaxOut": 1, "Cancels": "TRUE", "Daemons": "TRUE",
+            "ShortWin": '"any"',
             "Interleave": "TRUE", "Dev": tla_set(code_dev)}
 
 
@@ -499,6 +582,7 @@ def judge(chk: Check, runner: Runner, code_dev, label="C05_trace"):
             key = KNOWN_KEY.get(v, v[5:])
             if v == "PROP:run_raised":
                 key = "run_raised:" + m["error"].split(":")[0]
+            key = refine_key(key, m)
             chk.violation(key, f"{v} at record {pos}: {m['detail']} {m['error']} (origin {m['origin']})",
                           {"meta": m, "trace": runner.traces[tid - 1]})
         else:
